@@ -46,12 +46,20 @@ type assetMgr struct {
 
 // findAsset finds the asset by matching the uri with all assets paths.
 func (am *assetMgr) findAsset(uri string) (*asset, bool) {
+	// An asset can lie inside the directory of another one. Then both paths are prefixes of the URI, and the
+	// longest one is the asset that is meant (the first one found would depend on the iteration order of the map).
+	best, found := "", false
 	for assetPath := range am.assets {
 		if uri == assetPath || strings.HasPrefix(uri, assetPath+"/") {
-			return am.assets[assetPath], true
+			if !found || len(assetPath) > len(best) {
+				best, found = assetPath, true
+			}
 		}
 	}
-	return nil, false
+	if !found {
+		return nil, false
+	}
+	return am.assets[best], true
 }
 
 // addAsset adds or retrieves an asset.
